@@ -48,9 +48,30 @@ type controller struct {
 	client service
 	pools  *config.Pools
 	ips    *allocator.Allocator
+	// reprocessPending is set when a service released addresses but its
+	// update failed: the retry does not see the release any more, so the
+	// request to reprocess all the services must outlive it.
+	reprocessPending bool
 }
 
-func (c *controller) SetBalancer(l log.Logger, name string, svcRo *v1.Service, _ []discovery.EndpointSlice) controllers.SyncState {
+func (c *controller) SetBalancer(l log.Logger, name string, svcRo *v1.Service, eps []discovery.EndpointSlice) controllers.SyncState {
+	prevIPs := c.ips.IPs(name)
+	res := c.setBalancer(l, name, svcRo, eps)
+	switch {
+	case res == controllers.SyncStateError && len(prevIPs) != 0 && releasedIP(prevIPs, c.ips.IPs(name)) && c.ips.PoolForIP(prevIPs) != nil:
+		// The service gave up addresses but the update failed. The retry
+		// starts from the new allocation and will not ask to reprocess.
+		c.reprocessPending = true
+	case res == controllers.SyncStateReprocessAll:
+		c.reprocessPending = false
+	case (res == controllers.SyncStateSuccess || res == controllers.SyncStateErrorNoRetry) && c.reprocessPending:
+		c.reprocessPending = false
+		res = controllers.SyncStateReprocessAll
+	}
+	return res
+}
+
+func (c *controller) setBalancer(l log.Logger, name string, svcRo *v1.Service, _ []discovery.EndpointSlice) controllers.SyncState {
 	level.Debug(l).Log("event", "startUpdate", "msg", "start of service update")
 	defer level.Debug(l).Log("event", "endUpdate", "msg", "end of service update")
 
